@@ -139,4 +139,73 @@ theorem tieStage1_within (qd : List (Int × Nat)) (ms : List Nat) (hs : ms.Pairw
     rw [List.foldl_cons]
     exact ih (tieOne qd ms ns k) (tieOne_within qd ms hs ns k ks h0)
 
+-- ------------------------------------------------------------------ the symbolic durations of the list
+
+/-- what `tie_notes` leaves under a key: the note entered there with its extent and stored value untouched, or a piece
+    whose stored value is the estimate for its own length under the divisions in force at its start -/
+def SymSpec (qd : List (Int × Nat)) (ns : List Note) (x : Nat) (n' : Note) : Prop :=
+  (∃ n, lk ns x = some n ∧ n'.sym = n.sym ∧ n'.start = n.start ∧ n'.stop = n.stop) ∨
+  n'.sym = some (estimateI (n'.stop - n'.start) (quarterAt qd n'.start))
+
+theorem symSpec_upTo {qd : List (Int × Nat)} {ns : List Note} {x : Nat} {m n' : Note} (hu : UpTo m n')
+    (h : SymSpec qd ns x m) : SymSpec qd ns x n' := by
+  obtain ⟨_, h2, h3, _, _, _, _, _, _, h10, _⟩ := hu
+  rcases h with ⟨n, a, b, c, d⟩ | h
+  · exact Or.inl ⟨n, a, by rw [h10, b], by rw [h2, c], by rw [h3, d]⟩
+  · right; rw [h10, h2, h3]; exact h
+
+theorem tieOne_sym (qd : List (Int × Nat)) (ms : List Nat) (ns0 ns : List Note) (k : Nat)
+    (h : ∀ x n, lk ns x = some n → SymSpec qd ns0 x n) :
+    ∀ x n, lk (tieOne qd ms ns k) x = some n → SymSpec qd ns0 x n := by
+  unfold tieOne
+  cases hn : ns.find? (·.key = k) with
+  | none => exact h
+  | some note =>
+    simp only
+    cases hcut : cutPoints note.start note.stop ms with
+    | nil => exact h
+    | cons c cs =>
+      simp only
+      have hlt := cutPoints_cons_lt ms note.start note.stop c cs hcut
+      have htile := cutPoints_tiles (fun b => some (estimateI (b.2 - b.1) (quarterAt qd b.1))) ms note.start note.stop hlt
+      rw [hcut] at htile
+      have hne : (pieceBounds note.start note.stop (c :: cs)).map
+          (fun b => (b.1, b.2, some (estimateI (b.2 - b.1) (quarterAt qd b.1)))) ≠ [] := by
+        intro h0; rw [h0] at htile
+        have : note.start = note.stop := htile
+        omega
+      intro x n' hx
+      obtain ⟨m, hu, hm⟩ := install_cases ns note (freshKey ns) _ (Nat.le_refl _) hne htile x n' hx
+      refine symSpec_upTo hu ?_
+      rcases hm with hm | ⟨hm, _⟩
+      · right
+        have sp := (mkChain_sound note (freshKey ns) _ hne htile).2
+        have hb := sp.bounds
+        have hmem : (m.start, m.stop, m.sym) ∈ (pieceBounds note.start note.stop (c :: cs)).map
+            (fun b => (b.1, b.2, some (estimateI (b.2 - b.1) (quarterAt qd b.1)))) := by
+          rw [← hb]; exact List.mem_map.mpr ⟨m, hm, rfl⟩
+        obtain ⟨b, _, hbe⟩ := List.mem_map.mp hmem
+        have h1 : b.1 = m.start := by have := congrArg (·.1) hbe; simpa using this
+        have h2 : b.2 = m.stop := by have := congrArg (·.2.1) hbe; simpa using this
+        have h3 : some (estimateI (b.2 - b.1) (quarterAt qd b.1)) = m.sym := by
+          have := congrArg (·.2.2) hbe; simpa using this
+        rw [← h3, h1, h2]
+      · exact h x m hm
+
+/-- **the stored symbolic durations after stage 1 of `tie_notes`**: under every key the entered note untouched, or a
+    piece carrying the estimate for its own length under the divisions in force at its start -/
+theorem tieStage1_sym (qd : List (Int × Nat)) (ms : List Nat) (ns : List Note) :
+    ∀ x n, lk (tieStage1 qd ms ns) x = some n → SymSpec qd ns x n := by
+  unfold tieStage1
+  have h0 : ∀ x n, lk ns x = some n → SymSpec qd ns x n := fun x n hx => Or.inl ⟨n, hx, rfl, rfl, rfl⟩
+  generalize ns.map (·.key) = ks
+  suffices hgen : ∀ (cur : List Note), (∀ x n, lk cur x = some n → SymSpec qd ns x n) →
+      ∀ x n, lk (ks.foldl (tieOne qd ms) cur) x = some n → SymSpec qd ns x n from hgen ns h0
+  induction ks with
+  | nil => intro cur h; exact h
+  | cons k ks ih =>
+    intro cur h
+    rw [List.foldl_cons]
+    exact ih (tieOne qd ms cur k) (tieOne_sym qd ms ns cur k h)
+
 end C11Within
